@@ -2,7 +2,7 @@
 what the driver hands over, read() returns an arbitrary byte string or raises
 IOError.  This is the assumed contract of nfc.clf.transport.* for C13/C14."""
 import errno
-from pyvc_rt import nondet_int, nondet_bool, nondet_bytearray, require
+from pyvc_rt import nondet_int, nondet_bool, nondet_bytearray, nondet_bytes, require
 
 
 class Transport(object):
@@ -118,3 +118,21 @@ class UsbHandle(object):
         self.transfers = self.transfers + 1
         self._fail()
         return nondet_bytearray(0, length)
+
+
+class UdpSocket(object):
+    """the datagram socket of the udp driver: recvfrom() delivers a datagram of ANY content (bounded here: at most 8
+    octets, so that the driver's text parsing is decided exactly) or fails; sendto() sends all, part, or fails"""
+    def __init__(self):
+        self.sent = 0
+
+    def sendto(self, data, addr):
+        self.sent = self.sent + 1
+        if nondet_bool():
+            raise IOError(errno.ENETUNREACH, "network is unreachable")
+        return nondet_int(0, len(data))
+
+    def recvfrom(self, bufsize):
+        if nondet_bool():
+            raise IOError(errno.ECONNREFUSED, "connection refused")
+        return (nondet_bytes(0, 8), ('127.0.0.1', 54321))
